@@ -48,6 +48,28 @@ theorem numeric_selects_member (s : Schema) (fuel : Nat) (a : Active) (ms : List
   · intro m hm
     simp [pathFromDocument, hn, hp, hm]
 
+/-- **where the document has no array, a single value is the only member there is** (defect D21 repaired): a position
+    other than 0 is an error — at the root, after a single-valued property, after a literal — and position 0 continues in
+    that value -/
+theorem numeric_on_single_value (s : Schema) (fuel : Nat) (a : Active) (m : Option Node) (acc : Bool) (p : String) (n : Nat)
+    (rest : List String) (hn : isNumeric p = true) (hp : p.toNat? = some n) :
+    (n ≠ 0 → ∃ e, pathFromDocument s (fuel+1) a (.single m) acc (p :: rest) = .error e) ∧
+    (n = 0 → pathFromDocument s (fuel+1) a (.single m) acc (p :: rest) = (pathFromDocument s fuel a (.single m) true rest).map (.i 0 :: ·)) := by
+  constructor
+  · intro hne
+    exact ⟨"index-out-of-range", by simp [pathFromDocument, hn, hp, hne]⟩
+  · intro h0
+    subst h0
+    simp [pathFromDocument, hn, hp]
+
+/-- the specification of expansion says the same: a property with one member has no member 1 -/
+theorem stored_key_single_member_has_no_member_one (s : Schema) (base : Active) (node : Node) (m : Option Node) (td : TermDef) (a1 b : Active)
+    (idx : String) (hnum : isNumeric idx = true) (hidx : idx.toNat? = some 1)
+    (h1 : applyTypes s base base (sortS node.types) = some a1) (h2 : lookupTerm a1 "f" = some td)
+    (h3 : applyCtx s base td.sub = some b) (h4 : node.props.lookup "f" = some [m]) :
+    storedKey s 2 base (some node) ["f", idx, "g"] = .error "index-out-of-range" := by
+  simp [storedKey, h1, h2, h3, h4, hnum, hidx]
+
 /-- the type identifier is resolved for types only, and is the `@id` of the type term — the IRI that expansion
     stores as the subject's `rdf:type` and that the claim's schema hash is computed from -/
 theorem type_id_agrees (s : Schema) (top : Active) (typeName : String) (td : TermDef)
